@@ -90,6 +90,10 @@ PROPS = {
                                           "deque/reversed/partial contracts of the interpreter"],
                 bounded_note=[{"what": "stack size", "bound": "registrations enumerated up to 2 (quick) / 3 (thorough) entries of every kind; the unwinding loop is unrolled for these sizes (no loop invariant in the stack size); exit behaviours, block outcome and the history {unwind, aclose, pop_all, unwind again} are explored exhaustively and symbolically"}],
                 explanation="every history register* ; (leave|aclose|pop_all)* of the real ExitStack against the nested-with specification: same exits called with the same in-flight exception in the same order, same overall outcome, each exit exactly once"),
+    "C15": dict(level="proof", canaries=[(CANARY, "canary:filter-yields-before-test")],
+                trusted_base=TB_COMMON + ["specification contracts/refs/ref_contextlib_spec.py written from the property; async-with semantics A2",
+                                          "non-interference of concurrent calls follows from the per-call events: each call of a generator-based manager performs its own Call(genfunc) and drives only that generator object (event-match on object identity), and the decorator object is not written (only objects allocated by the call are)"],
+                explanation="a decorated call against the specification, for generator-based managers (fresh generator per call: the generator function is called once per call and only that generator is resumed/thrown into) and class-based ContextDecorator managers: enter before the body, exit after it with the body's exception (incl. BaseException/cancellation at every suspension), result/exception passed through unless suppressed"),
     "C16": dict(level="proof", canaries=[(CANARY, "canary:filter-yields-before-test")], trusted_base=TB_COMMON + ["reference class groupby/_grouper = transcription of CPython's groupbyobject/_grouperobject (validated differentially)", "one stale group handle represents all stale handles (their behaviour depends only on not being the current group)"],
                 explanation="data structure against abstract view: GroupBy/_Grouper operations vs the transcribed itertools.groupby under an arbitrary history of {advance groupby, advance current group, advance stale group}; the consumer loop is a cut point, so histories and inputs are unbounded"),
     "C19": dict(level="proof", canaries=[(CANARY, "canary:filter-yields-before-test")],
